@@ -549,6 +549,55 @@ fn gen_large(r: &mut Rng) -> String {
     out
 }
 
+// ---------------------------------------------------------------- W
+/// Access windows: pointer-moving loops followed (or preceded) by reads, stores
+/// and inputs at offsets further out than anything else in the block.
+fn gen_window(r: &mut Rng) -> String {
+    let mut out = String::new();
+    let acc = |r: &mut Rng, out: &mut String| {
+        let d = 1 + r.below(4);
+        let (a, b) = if r.chance(2) { ('>', '<') } else { ('<', '>') };
+        rep(out, a, d);
+        match r.below(5) {
+            0 => out.push(','),
+            1 => out.push_str("[-]+"),
+            2 => out.push('.'),
+            3 => out.push_str("[-]"),
+            _ => out.push('+'),
+        }
+        if !r.chance(4) {
+            rep(out, b, d);
+        }
+    };
+    rep(&mut out, '+', 1 + r.below(3));
+    let blocks = 1 + r.below(3);
+    for _ in 0..blocks {
+        let looped = r.chance(2);
+        if looped {
+            out.push_str(if r.chance(2) { "[" } else { "+[" });
+        }
+        for _ in 0..r.below(3) {
+            acc(r, &mut out);
+        }
+        // a pointer-moving loop
+        match r.below(5) {
+            0 => out.push_str("[>]"),
+            1 => out.push_str("[<]"),
+            2 => out.push_str("[>>]"),
+            3 => out.push_str("[-<+>>]"),
+            _ => out.push_str("[.>]"),
+        }
+        for _ in 0..1 + r.below(3) {
+            acc(r, &mut out);
+        }
+        if looped {
+            out.push_str(if r.chance(2) { "[-]]" } else { "<[-]]" });
+        }
+    }
+    out.push_str(".>.<<.");
+    out
+}
+
 // ---------------------------------------------------------------- G
 /// Counted loops whose body updates accumulators by constants, by loop-constant
 /// cells, by linearly changing cells and by geometrically changing cells: the
@@ -971,6 +1020,7 @@ pub fn main_gen(args: &[String]) {
             "L" => gen_large(&mut r),
             "I" => gen_io(&mut r),
             "G" => gen_closed(&mut r),
+            "W" => gen_window(&mut r),
             "D" => gen_div(&mut r),
             "M" => {
                 let s = r.pick(&seeds).clone();
